@@ -152,6 +152,12 @@ class Inliner:
         if nested_direct and callee.parent is fi:
             # a nested function of this very function, called directly (not passed around as a closure)
             return callee
+        if nested_direct and callee.parent is fi.parent and callee.parent is not None:
+            # a sibling closure of the same enclosing function: its free variables belong to the shared parent; they mean
+            # the same in the caller unless a local of the caller has the same name
+            free = {n.id for n in ast.walk(callee.node) if isinstance(n, ast.Name) and isinstance(n.ctx, ast.Load)} - _local_names(callee.node)
+            if not (free & _local_names(fi.node)):
+                return callee
         if private and (on_self or (isinstance(f, ast.Name) and callee.cls is None and callee.parent is None)):
             return callee
         return None
